@@ -74,7 +74,7 @@ def main():
             for p in props:
                 t0 = time.time()
                 r = subprocess.run([os.path.join(HERE, "check"), p, "--tier", tier, "--no-evidence"], capture_output=True, text=True,
-                                   env=dict(os.environ, VERIF_TREE=wt, **({"VERIF_SEED": vseed} if vseed else {})), cwd=HERE)
+                                   env=dict(os.environ, VERIF_TREE=wt, VERIF_NO_REGRESSIONS="1", **({"VERIF_SEED": vseed} if vseed else {})), cwd=HERE)
                 viol = [ln for ln in r.stdout.splitlines() if ln.startswith("VIOLATION")]
                 first = next((ln.strip() for ln in r.stdout.splitlines() if ln.strip().startswith("violation clause")), "")
                 rec = {"tier": tier, "exit": r.returncode, "violation_lines": len(viol), "seconds": round(time.time() - t0), "first": first[:300]}
@@ -87,7 +87,7 @@ def main():
                         checks[p]["other_seeds"] = other
                 line.append(f"{p}:rc={r.returncode}/{len(viol)}b/{round(time.time() - t0)}s")
             meta["ran"] = ("tools/seedrun.py: patch applied to a scratch git worktree of /repo HEAD under /root/scratch/m (removed afterwards); repository tests, "
-                           "demo.py and `./check <id> --tier %s` with VERIF_TREE=<worktree>" % tier)
+                           "demo.py and `./check <id> --tier %s` with VERIF_TREE=<worktree> and VERIF_NO_REGRESSIONS=1 (so that the outcome measures what the generators reach, not the regression corpus)" % tier)
             json.dump(meta, open(os.path.join(d, "meta.json"), "w"), indent=1)
             print(" ".join(line), flush=True)
         finally:
